@@ -116,7 +116,7 @@ class Run:
         # cross re-entrancy: from inside the k-th announcement report the oldest *other* outstanding service
         self.imm_other = imm_other or (lambda k: False)
         self.mutate = mutate
-        self.in_progress = set()  # announcement indices whose completion is being delivered right now
+        self.in_progress = []  # announcement indices whose completion is being delivered right now (a stack)
         self.announced = []  # service ids in announcement order
         self.pending = []  # indices into announced, not completed yet
         self.fns = {}  # (kind, j) -> function object
@@ -181,6 +181,10 @@ class Run:
             if self.mutate:
                 self.hostile(api)
             if self.imm_other(k):
+                inprog = [j for j in self.in_progress if j != k]
+                if inprog and k % 2 == 0:
+                    # a completion that is being delivered right now is reported again: must be refused
+                    self.complete(inprog[-1], nested=True)
                 others = [j for j in self.pending if j != k and j not in self.in_progress]
                 if others:
                     self.complete(others[0], nested=True)
@@ -266,7 +270,7 @@ class Run:
         """report the k-th announced service as finished"""
         uid = self.announced[k]
         ev = Event("service_finished", {"service_uuid": uid})
-        self.in_progress.add(k)
+        self.in_progress.append(k)
         try:
             if nested:
                 self.ev(["FIRE", uid])
@@ -280,7 +284,7 @@ class Run:
                 self.pending.remove(k)
             return rec
         finally:
-            self.in_progress.discard(k)
+            self.in_progress.pop()
 
     def fire_raw(self, op, event):
         return self._call(op, lambda: self.s.fire_event(event))
